@@ -140,6 +140,55 @@ fn sub_read(small: bool) {
             }
         }
     }
+    // wrapper sources (Deref forwarding): every trait method must behave like the wrapped str / [u8]
+    {
+        let m = "aé€😀z";
+        let owned = String::from(m);
+        let boxed: Box<str> = m.into();
+        let rc: std::rc::Rc<str> = m.into();
+        let mb = m.as_bytes();
+        let vecb = mb.to_vec();
+        for a in 0..=m.len() + 2 {
+            cases += 1;
+            let want_b = m.is_char_boundary(a);
+            if Source::is_boundary(&owned, a) != want_b || Source::is_boundary(&boxed, a) != want_b || Source::is_boundary(&m, a) != want_b || Source::is_boundary(&rc, a) != want_b {
+                violation("C05", "wrapper-is-boundary", &format!("is_boundary({a}) through String/Box<str>/&str/Rc<str> differs from str"));
+            }
+            if Source::is_boundary(&vecb, a) != (a <= mb.len()) || Source::is_boundary(&mb, a) != (a <= mb.len()) {
+                violation("C05", "wrapper-is-boundary", &format!("is_boundary({a}) through Vec<u8>/&[u8] differs from [u8]"));
+            }
+            if a <= m.len() {
+                let want = (a..=m.len()).find(|&j| m.is_char_boundary(j)).unwrap();
+                if Source::find_boundary(&owned, a) != want || Source::find_boundary(&boxed, a) != want || Source::find_boundary(&m, a) != want {
+                    violation("C05", "wrapper-find-boundary", &format!("find_boundary({a}) through a wrapper source is not {want}"));
+                }
+                if Source::find_boundary(&vecb, a) != a {
+                    violation("C05", "wrapper-find-boundary", &format!("find_boundary({a}) through Vec<u8> is not {a}"));
+                }
+            }
+            for b in a..=m.len() + 2 {
+                cases += 1;
+                if <String as Source>::slice(&owned, a..b) != m.get(a..b) || <Box<str> as Source>::slice(&boxed, a..b) != m.get(a..b) {
+                    violation("C05", "wrapper-slice", &format!("slice({a}..{b}) through a str wrapper differs from str::get"));
+                }
+                if <Vec<u8> as Source>::slice(&vecb, a..b) != mb.get(a..b) {
+                    violation("C05", "wrapper-slice", &format!("slice({a}..{b}) through Vec<u8> differs from <[u8]>::get"));
+                }
+                #[cfg(not(feature = "forbid_unsafe"))]
+                if m.get(a..b).is_some() {
+                    // in-range, boundary-aligned: the unchecked variants must return the same slice
+                    let s1 = unsafe { <String as Source>::slice_unchecked(&owned, a..b) };
+                    let s2 = unsafe { <Vec<u8> as Source>::slice_unchecked(&vecb, a..b) };
+                    if s1 != &m[a..b] || s2 != &mb[a..b] {
+                        violation("C05", "wrapper-slice-unchecked", &format!("slice_unchecked({a}..{b}) through a wrapper differs"));
+                    }
+                }
+            }
+        }
+        if Source::len(&owned) != m.len() || Source::len(&vecb) != mb.len() || Source::len(&rc) != m.len() {
+            violation("C05", "wrapper-len", "len() through a wrapper source differs");
+        }
+    }
     // multi-byte: is_boundary / find_boundary
     let m = "aé€😀z";
     for i in 0..=m.len() + 1 {
